@@ -38,6 +38,7 @@ type c05Sig struct {
 type c05Case struct {
 	Prins     []c05Prin `json:"prins"`
 	Threshold int       `json:"threshold"`
+	Exhaustive bool     `json:"exhaustive,omitempty"` // the verifier is the exhaustive one used for global rules (threshold ignored)
 	Git       int       `json:"git"` // -2: no git object, -1: unsigned object, k: signed by key k
 	NoEnv     bool      `json:"no_env"`
 	Sigs      []c05Sig  `json:"sigs"`
@@ -116,6 +117,7 @@ func genC05(rt *rapid.T) c05Case {
 		}
 		c.Threshold = rapid.IntRange(1, hi).Draw(rt, "threshold")
 	}
+	c.Exhaustive = rapid.IntRange(0, 4).Draw(rt, "exhaustive") == 0
 	c.Git = rapid.SampledFrom([]int{-2, -1, 0, 1, 2, 3, 4, 5, 6, 7}).Draw(rt, "git")
 	c.NoEnv = rapid.IntRange(0, 4).Draw(rt, "noenv") == 0
 	if !c.NoEnv {
@@ -206,6 +208,9 @@ func runC05(s *kit.Session, c c05Case) *kit.Failure {
 		principals = append(principals, p.principal())
 	}
 	v := policy.VerifNewVerifier(st, "rule", principals, c.Threshold)
+	if c.Exhaustive {
+		v = policy.VerifNewExhaustiveVerifier(st, "exhaustive", principals)
+	}
 	got, err := v.Verify(context.Background(), gitID, env)
 
 	// oracle
@@ -239,6 +244,44 @@ func runC05(s *kit.Session, c c05Case) *kit.Failure {
 				sharedKeys = true
 			}
 		}
+	}
+	if c.Exhaustive && len(c.Prins) > 0 {
+		// the exhaustive verifier reports who is authenticated; global thresholds
+		// count its answer, so it must never credit more principals than can be
+		// matched to distinct validly signing keys, nor a principal that did not sign
+		mUp, mLow := maxMatching(c.Prins, upper), maxMatching(c.Prins, lower)
+		if err != nil {
+			if !(env != nil && len(env.Signatures) == 0) {
+				return fail("unexpected-error", "the exhaustive verifier failed")
+			}
+			s.Observe(c, false, "exhaustive", "envelope_without_signatures")
+			return nil
+		}
+		n := 0
+		if got != nil {
+			n = got.Len()
+			signed := map[string]bool{}
+			for _, p := range c.Prins {
+				for _, k := range p.Keys {
+					if upper[k] {
+						signed[p.pid()] = true
+					}
+				}
+			}
+			for _, id := range got.Contents() {
+				if !signed[id] {
+					return fail("credited-nonsigner", "principal %s was authenticated but none of its keys validly signed", id)
+				}
+			}
+		}
+		if n > mUp {
+			return fail("threshold-overcount", "the exhaustive verifier authenticated %d principals but only %d can be matched to distinct validly signing keys", n, mUp)
+		}
+		if !sharedKeys && n < mLow {
+			return fail("threshold-undercount", "principals share no keys and %d of them signed validly but only %d were authenticated", mLow, n)
+		}
+		s.Observe(c, len(c.Prins) >= 2 && (sharedKeys || n >= 2), "exhaustive")
+		return nil
 	}
 	if c.Threshold < 1 || len(c.Prins) == 0 {
 		if err == nil {
@@ -390,7 +433,7 @@ func c05EnumRules(maxP int) [][]c05Prin {
 // c05EnumCase maps an index to a case: rule x threshold 0..4 x Git signer
 // {none, unsigned, key 0..3} x envelope {absent, every subset of keys 0..3}.
 func c05EnumCase(rules [][]c05Prin, i int) (c05Case, bool) {
-	const nThr, nGit, nEnv = 5, 6, 17
+	const nThr, nGit, nEnv = 6, 6, 17 // threshold index 5 = the exhaustive verifier
 	per := nThr * nGit * nEnv
 	if i >= len(rules)*per {
 		return c05Case{}, false
@@ -398,6 +441,9 @@ func c05EnumCase(rules [][]c05Prin, i int) (c05Case, bool) {
 	r := rules[i/per]
 	j := i % per
 	c := c05Case{Prins: r, Threshold: j % nThr}
+	if c.Threshold == 5 {
+		c.Threshold, c.Exhaustive = 1, true
+	}
 	j /= nThr
 	c.Git = j%nGit - 2
 	j /= nGit
@@ -420,7 +466,7 @@ func TestC05(t *testing.T) {
 		kit.DoReplay(s, t, rf, run)
 		return
 	}
-	s.SetRule("rapid: rules over 0-4 principals (v0.1 keys, v0.2 keys, persons with 1-2 keys; keys shared between principals in a third of the cases), thresholds 0..5, Git object {absent, unsigned, signed by a trusted or an untrusted key}, envelope {absent, 0-6 signatures by any multiset of trusted/untrusted keys, with own/empty/foreign keyid fields, some lifted from another payload}. Oracle: maximum bipartite matching principal-key over validly signing keys; soundness always, exactness when principals share no keys. Plus a bounded-exhaustive enumeration (see enumeration_bound). Non-trivial: >=2 principals and (shared key | person whose two keys both signed | duplicate or lifted signature | Git and envelope signature by the same principal)")
+	s.SetRule("rapid: rules over 0-4 principals (v0.1 keys, v0.2 keys, persons with 1-2 keys; keys shared between principals in a third of the cases), thresholds 0..5 (one case in five uses the exhaustive verifier that global rules count with), Git object {absent, unsigned, signed by a trusted or an untrusted key}, envelope {absent, 0-6 signatures by any multiset of trusted/untrusted keys, with own/empty/foreign keyid fields, some lifted from another payload}. Oracle: maximum bipartite matching principal-key over validly signing keys; soundness always, exactness when principals share no keys. Plus a bounded-exhaustive enumeration (see enumeration_bound). Non-trivial: >=2 principals and (shared key | person whose two keys both signed | duplicate or lifted signature | Git and envelope signature by the same principal)")
 	kit.Campaign(s, t, "verify", "verify", s.Budget(40_000, 1_000_000), genC05, run)
 	// bounded-exhaustive part of the quantifier: every rule over <=2 (quick) /
 	// <=3 (thorough) principals x every threshold x every Git signer x every
@@ -432,6 +478,6 @@ func TestC05(t *testing.T) {
 	rules := c05EnumRules(maxP)
 	ok := kit.Enumerate(s, t, "enum", "verify", func(i int) (c05Case, bool) { return c05EnumCase(rules, i) }, run)
 	s.SetExhaustive(ok)
-	s.SetExtra("enumerated_rules", fmt.Sprintf("%d rules x 510 = %d cases", len(rules), len(rules)*510))
-	s.SetExtra("enumeration_bound", fmt.Sprintf("all ordered rules over <=%d principals of 12 shapes (v0.1 key, v0.2 key, one-key person, two-key person over keys 0..2) x thresholds 0..4 x Git object {absent, unsigned, signed by key 0..3} x envelope {absent, every subset of keys 0..3 as signers}; key 3 is never trusted", maxP))
+	s.SetExtra("enumerated_rules", fmt.Sprintf("%d rules x 612 = %d cases", len(rules), len(rules)*612))
+	s.SetExtra("enumeration_bound", fmt.Sprintf("all ordered rules over <=%d principals of 12 shapes (v0.1 key, v0.2 key, one-key person, two-key person over keys 0..2) x {thresholds 0..4, the exhaustive verifier} x Git object {absent, unsigned, signed by key 0..3} x envelope {absent, every subset of keys 0..3 as signers}; key 3 is never trusted", maxP))
 }
